@@ -240,7 +240,7 @@ class AM:
     def to_config(self, **opts):
         d = self.node_json(0, opts)
         d["id"] = self.root_id
-        d["context"] = {}
+        d["context"] = dict(opts.get("context") or {})
         if self.max_iter != 1000:
             d["maxIterations"] = self.max_iter
         if self.output is not None:
